@@ -141,12 +141,8 @@ class C08(Check):
     def run(self, ctx):
         cssutils = silence()
         G.install_wrappers()
-        self.corpus(ctx, cssutils)
-        self.part_a(ctx, cssutils)
-        self.part_b(ctx, cssutils)
-        self.part_c(ctx, cssutils)
-        self.part_d(ctx, cssutils)
-        self.oracle_reparse(ctx, cssutils)
+        for part in (self.corpus, self.part_a, self.part_b, self.part_c, self.part_d, self.oracle_reparse):
+            ctx.phase(part, ctx, cssutils)
 
     # -- corpus: minimized past failures, run first ---------------------------------------------------
     def corpus(self, ctx, cssutils):
@@ -221,14 +217,17 @@ class C08(Check):
             elif isinstance(r, tuple) and r[0] is not None:
                 if (r[0], r[1]) != (want[0], want[1]):
                     ctx.violate('the encoding is the first applicable of override / HTTP / BOM-or-@charset / parent / UTF-8',
-                                c.to_json(), {'impl': [r[0], r[1]], 'spec': list(want[:2])},
-                                known='C08-short-bom' if (G.short_bom(c.content) and want[1] == 2) else None)
+                                c.to_json(), {'impl': [r[0], r[1]], 'spec': list(want[:2])})
+                elif want[2] == 'lookup':
+                    # an encoding the runtime does not know: the sheet is not readable, nothing raises
+                    if r[2] is not None:
+                        ctx.violate('content in an encoding the runtime does not know is not read', c.to_json(),
+                                    {'impl': r[2]})
                 elif want[2] != 'skip' and r[2] != want[2]:
                     ctx.violate('the content is decoded with the chosen encoding (text content is left alone)',
                                 c.to_json(), {'impl': r[2], 'spec': want[2]})
-            elif want[2] != 'lookup' and got.startswith('ERR'):
-                ctx.violate('reading a sheet in a known encoding does not raise', c.to_json(), {'impl': got},
-                            known='C08-short-bom' if (G.short_bom(c.content) and want[1] == 2) else None)
+            elif got.startswith('ERR'):
+                ctx.violate('reading an imported sheet never raises', c.to_json(), {'impl': got})
 
     # == B: import trees =================================================================================
     def part_b(self, ctx, cssutils):
@@ -268,21 +267,21 @@ class C08(Check):
     def oracle_tree(self, ctx, c, res):
         """the statement of the property on the DOM that came out, from the tree description alone"""
         if res['status'] != 'ok':
-            if res['status'] in ('LookupError', 'AttributeError') and (c.has_unknown_names() or c.override == ''):
-                return      # names CPython does not know are outside the property's quantifier
-            if res['status'] == 'UnicodeDecodeError' and c.mode == 'ps':
-                return      # documented for the root sheet
+            if res['status'] in ('LookupError', 'UnicodeDecodeError') and c.mode == 'ps' and isinstance(c.root, bytes):
+                # documented for the root sheet given as bytes: its own bytes do not decode / its `encoding=` is unknown
+                try:
+                    import codecs
+                    codecs.getdecoder('css')(c.root, encoding=c.override)
+                except (LookupError, UnicodeDecodeError):
+                    return
             if res['status'] == 'none':
                 return
             ctx.violate('loading sheets in known encodings does not raise', c.to_json(), {'impl': res['status']})
             return
         if c.has_unknown_names():
             return          # outside the quantifier (the correspondence still covers these cases)
-        kf = None
-        if c.mode == 'pu' and not c.override:
-            kf = 'C08-parseurl-override'
         for v in G.spec_tree_violations(c, res):
-            ctx.violate(v['clause'], c.to_json(), v['detail'], known=kf if v.get('parseurl_region') else None)
+            ctx.violate(v['clause'], c.to_json(), v['detail'])
 
     # == C: edits ======================================================================================
     def part_c(self, ctx, cssutils):
